@@ -9,7 +9,7 @@ Definition dec_op (c a : Z) : op :=
   else if c =? 4 then QNnodes else if c =? 5 then QMain else if c =? 6 then QMainUp an
   else if c =? 7 then QStrahler an else if c =? 8 then QClassic an else if c =? 9 then QDistnc
   else if c =? 10 then QArea else if c =? 11 then QUparea (negb (a =? 0)) else if c =? 12 then QAccuflux an
-  else if c =? 13 then (if a =? 0 then QBasins else QPit)   (* a <> 0: to_array, which only needs the pits *)
+  else if c =? 13 then (if (a =? 0) || (a =? 5) then QBasins else QPit)   (* 5: basins of snapped outlets; other a <> 0: to_array, which only needs the pits *)
   else if c =? 14 then QPathUp else if c =? 15 then QPathDown
   else if c =? 16 then MAddPits else if c =? 17 then MRepair (negb (a =? 0)) else if c =? 18 then MSetTransform
   else if c =? 19 then MOrder (if a =? 0 then Sort else Walk) else if c =? 21 then QStreamDist an else MDumpLoad.
